@@ -43,6 +43,15 @@ EXPLANATION = (
 ASSUMPTIONS = ["scikit-learn's accuracy_score, balanced_accuracy_score, top_k_accuracy_score, jaccard_score, average_precision_score compute what they document (trusted)"]
 
 
+def lift_forms(p):
+    """the spellings of "a vector as a one-row matrix"""
+    sl = ("slice", ("const", None), ("const", None), ("const", None))
+    return {("sub", p, ("tuple", (("ext", "numpy.newaxis"), sl))), ("sub", p, ("tuple", (("const", None), sl))),
+            ("sub", p, ("ext", "numpy.newaxis")), ("sub", p, ("const", None)),
+            ("call", ("ext", "numpy.atleast_2d"), (p,), ()), ("call", ("ext", "numpy.expand_dims"), (p, ("const", 0)), ()),
+            ("call", ("attr", p, "reshape"), (("const", 1), ("const", -1)), ())}
+
+
 def G(mod, name, kind="func"):
     return ("global", f"{mod}:{name}", kind)
 
@@ -225,63 +234,7 @@ class C09:
                         f"{'before the arg-max' if fname != 'top_3_accuracy' else ''} (sibling wrappers do)", s.returns[0].lineno)
         # true_class_probability / classification_score
         for fname in ("true_class_probability", "classification_score"):
-            s = ctx.summ.of_func(MET, fname)
-            yt, ys = ("param", s.params[0]), ("param", s.params[1])
-            site = f"{file}:{s.node.lineno} {fname}"
-            none_ret = [r for r in s.returns if ("cmp", "is", yt, NONE) in conjuncts(r.live)]
-            some_ret = [r for r in s.returns if ("cmp", "isnot", yt, NONE) in conjuncts(r.live)]
-            w_none = ("bin", "-", ("const", 1), ("call", ("attr", ys, "sum"), (), ()))
-            # a wrapper that hands both arguments to its sibling is its sibling
-            if len(s.returns) == 1 and s.returns[0].term[0] == "call" and s.returns[0].term[1][0] == "global" \
-                    and s.returns[0].term[1][1] in (f"{MET}:true_class_probability", f"{MET}:classification_score") \
-                    and s.returns[0].term[1][1] != f"{MET}:{fname}" and s.returns[0].term[2] == (yt, ys) and not s.returns[0].term[3]:
-                ctx.ok("R09.3", site, f"delegates to {s.returns[0].term[1][1].split(':')[1]}(y_true, y_score)")
-                ctx.ok("R09.7", site, "clamped by the sibling it delegates to")
-                continue
-            nt = none_ret[0].term if len(none_ret) == 1 else None
-            clamped = False
-            if len(none_ret) == 2:
-                # `x if x > 0 else 0` spelled out: x under (0 < x), 0 under (x <= 0)
-                pos_ = [r for r in none_ret if canon(r.term) == canon(w_none)]
-                zer_ = [r for r in none_ret if r.term in (("const", 0), ("const", 0.0))]
-                if len(pos_) == 1 and len(zer_) == 1:
-                    cp_ = [c for c in conjuncts(pos_[0].live) if c[0] == "cmp" and c[1] in ("lt", "le") and c[2] in (("const", 0), ("const", 0.0)) and canon(c[3]) == canon(w_none)]
-                    if cp_:
-                        nt, clamped = pos_[0].term, True
-                        none_ret = pos_
-            if nt is not None and nt[0] == "call" and nt[1] in (("builtin", "max"), ("ext", "numpy.maximum")) and len(nt[2]) == 2 and not nt[3]:
-                def is_zero(a):
-                    if a in (("const", 0), ("const", 0.0)):
-                        return True
-                    if a[0] == "attr" and a[1][0] == "global" and a[1][2] == "class" and ":" in a[1][1]:
-                        ci_ = ctx.index.class_by_qual(a[1][1])
-                        d_ = [st_ for st_ in (ci_.node.body if ci_ else []) if isinstance(st_, ast.Assign) and any(isinstance(t_, ast.Name) and t_.id == a[2] for t_ in st_.targets)]
-                        return len(d_) == 1 and isinstance(d_[0].value, ast.Constant) and d_[0].value.value in (0, 0.0) and not isinstance(d_[0].value.value, bool)
-                    return False
-                z_ = [a for a in nt[2] if is_zero(a)]
-                o_ = [a for a in nt[2] if a not in z_]
-                if len(z_) == 1 and len(o_) == 1:
-                    nt, clamped = o_[0], True
-            if nt is not None and nt[0] == "call" and nt[1] == ("builtin", "float") and len(nt[2]) == 1:
-                nt = nt[2][0]
-            if nt is not None and len(some_ret) == 1 and canon(nt) == canon(w_none) and some_ret[0].term == ("sub", ys, yt):
-                ctx.ok("R09.3", site, "y_score[y_true], or 1 - sum(y_score) for an unlabelled item")
-                # R09.7: the scores come from prediction_encoding as float32; the float32 sum of scores that add up to 1 (0.3 + 0.4 +
-                # 0.1 + 0.2) is 1.0000001, so 1 - sum is -1.19e-07 and the `score >= 0` constraint of Match / ClipEvaluation /
-                # Evaluation rejects the whole evaluation: the 'none' probability must be clamped at 0
-                if clamped:
-                    ctx.ok("R09.7", site, "the 'none' probability 1 - sum(scores) is clamped at 0")
-                else:
-                    ctx.bad("R09.7", file, fname, "return 1 - y_score.sum() (unclamped)",
-                            f"metrics.{fname} returns `1 - y_score.sum()` for an unlabelled item without clamping it at 0: the scores are "
-                            f"float32 (prediction_encoding), and for scores that add up to exactly 1 their float32 sum is 1.0000001, so the "
-                            f"result is -1.19e-07 -- the ge=0 constraint on score then rejects the match / clip evaluation and the whole "
-                            f"task call fails with a ValidationError", none_ret[0].lineno,
-                            witness={"scores": [0.3, 0.4, 0.1, 0.2], "float32_sum": 1.0000001192092896, "returned": -1.1920928955078125e-07})
-            else:
-                ctx.bad("R09.3", file, fname, "return y_score[y_true] / 1 - y_score.sum()",
-                        f"metrics.{fname} is not `y_score[y_true]` (and `1 - y_score.sum()` for None): "
-                        f"{[(show(r.live)[:30], show(r.term)[:40]) for r in s.returns]}", s.node.lineno)
+            self.probability_wrapper(fname)
         # jaccard / average_precision / mean_average_precision
         s = ctx.summ.of_func(MET, "jaccard")
         site = f"{file}:{s.node.lineno} jaccard"
@@ -292,6 +245,64 @@ class C09:
         else:
             ctx.bad("R09.3", file, "jaccard", f"return {show(t)[:100] if t else '-'}",
                     "metrics.jaccard must be jaccard_score(y_true, y_score > threshold, average='samples')", s.node.lineno)
+        # the example-level call hands jaccard two vectors: each is lifted to a one-row matrix exactly when it is one-dimensional,
+        # and the label set is the class axis (the last one) of the lifted truth
+        if t is not None and t[0] == "call":
+            from sa.peval import peval
+            kwj = callkw(t)
+            problems = []
+            for pname, arg in (("y_true", kwj.get("y_true")), ("y_score", next((x for x in walk(kwj.get("y_pred", NONE)) if x[0] == "ite" or x == ("param", "y_score") or x in lift_forms(("param", "y_score"))), None))):
+                P = ("param", pname)
+                if arg is None:
+                    problems.append(f"{pname} does not reach jaccard_score")
+                    continue
+                one = peval(arg, {("attr", P, "ndim"): 1})
+                two = peval(arg, {("attr", P, "ndim"): 2})
+                if one not in lift_forms(P):
+                    problems.append(f"a one-dimensional {pname} is passed on as {show(one)[:40]} instead of a one-row matrix")
+                if two != P and two != ("call", ("ext", "numpy.atleast_2d"), (P,), ()):
+                    problems.append(f"a two-dimensional {pname} is passed on as {show(two)[:40]}")
+            lab = kwj.get("labels")
+            if lab is not None:
+                l1 = peval(lab, {("attr", ("param", "y_true"), "ndim"): 1})
+                okl = l1[0] == "call" and l1[1] == ("ext", "numpy.arange") and len(l1[2]) == 1 and l1[2][0][0] == "sub" and l1[2][0][1][0] == "attr" \
+                    and l1[2][0][1][2] == "shape" and ((l1[2][0][2] == ("const", 1) and l1[2][0][1][1] in lift_forms(("param", "y_true"))) or l1[2][0][2] == ("const", -1))
+                if not okl:
+                    problems.append(f"labels = {show(l1)[:60]} is not the range over the class axis of the truth")
+            if problems:
+                ctx.bad("R09.3", file, "jaccard", "shape handling of y_true / y_score", "metrics.jaccard: " + "; ".join(problems), s.node.lineno)
+            else:
+                ctx.ok("R09.3", site, "vectors lifted to one-row matrices exactly when one-dimensional; labels = range(class axis)")
+        # multilabel_example_score (the clip score of the multilabel task): exp(-log_loss(truth row, score row)), both lifted alike
+        if "multilabel_example_score" in ctx.index.module(MET).defs:
+            from sa.peval import peval
+            s = ctx.summ.of_func(MET, "multilabel_example_score")
+            site = f"{file}:{s.node.lineno} multilabel_example_score"
+            ll = [x for r in s.returns for x in walk(r.term) if x[0] == "call" and x[1] == sk("log_loss")]
+            if len(s.returns) == 1 and len(ll) == 1:
+                kwl = callkw(ll[0])
+                a_ = list(ll[0][2])
+                problems = []
+                for pname, arg in (("y_true", kwl.get("y_true", a_[0] if a_ else None)), ("y_score", kwl.get("y_pred", a_[1] if len(a_) > 1 else None))):
+                    P = ("param", pname)
+                    if arg is None:
+                        problems.append(f"{pname} does not reach log_loss")
+                        continue
+                    one, two = peval(arg, {("attr", P, "ndim"): 1}), peval(arg, {("attr", P, "ndim"): 2})
+                    if one not in lift_forms(P):
+                        problems.append(f"a one-dimensional {pname} is passed on as {show(one)[:40]} instead of a one-row matrix")
+                    if two != P and two != ("call", ("ext", "numpy.atleast_2d"), (P,), ()):
+                        problems.append(f"a two-dimensional {pname} is passed on as {show(two)[:40]}")
+                rt = s.returns[0].term
+                if not (rt[0] == "call" and rt[1] in (("ext", "numpy.exp"), ("ext", "math.exp")) and len(rt[2]) == 1 and rt[2][0] in (("neg", ll[0]), ("un", "-", ll[0]), ("bin", "*", ("const", -1), ll[0]))):
+                    if not (rt[0] == "call" and rt[1] in (("ext", "numpy.exp"), ("ext", "math.exp")) and any(x == ll[0] for x in walk(rt)) and "-" in show(rt[2][0])[:3]):
+                        problems.append(f"the score is {show(rt)[:60]} instead of exp(-log_loss)")
+                if problems:
+                    ctx.bad("R09.3", file, "multilabel_example_score", "shape handling of y_true / y_score", "metrics.multilabel_example_score: " + "; ".join(problems), s.node.lineno)
+                else:
+                    ctx.ok("R09.3", site, "exp(-log_loss) over the truth / score vectors lifted to one-row matrices exactly when one-dimensional")
+            else:
+                ctx.undec("R09.3", site, "does not return one expression over sklearn's log_loss")
         for fname, avg in (("average_precision", "micro"), ("mean_average_precision", "macro")):
             s = ctx.summ.of_func(MET, fname)
             site = f"{file}:{s.node.lineno} {fname}"
@@ -342,6 +353,156 @@ class C09:
                     ctx.bad("R09.3", file, fname, "y_true[~no_class], y_score[~no_class]",
                             "unlabelled items must be left out of mean average precision by masking BOTH arrays with the same "
                             f"isnan(y_true) mask on every path (truth masks: {worst[1]}, score masks: {worst[2]} when {when})", s.node.lineno)
+                # rank scenarios: the branch conditions are tests on .ndim; they are decided with the ranks the tasks hand over
+                self.map_ranks(s, site, file, yt, ysc)
+
+    def probability_wrapper(self, fname, r3="R09.3", r7="R09.7"):
+        """true_class_probability / classification_score: y_score[y_true], and 1 - sum(y_score), clamped at 0, for an unlabelled item"""
+        ctx = self.ctx
+        file = ctx.index.module(MET).relpath
+        s = ctx.summ.of_func(MET, fname)
+        yt, ys = ("param", s.params[0]), ("param", s.params[1])
+        site = f"{file}:{s.node.lineno} {fname}"
+        none_ret = [r for r in s.returns if ("cmp", "is", yt, NONE) in conjuncts(r.live)]
+        some_ret = [r for r in s.returns if ("cmp", "isnot", yt, NONE) in conjuncts(r.live)]
+        w_none = ("bin", "-", ("const", 1), ("call", ("attr", ys, "sum"), (), ()))
+        # a wrapper that hands both arguments to its sibling is its sibling
+        if len(s.returns) == 1 and s.returns[0].term[0] == "call" and s.returns[0].term[1][0] == "global" \
+                and s.returns[0].term[1][1] in (f"{MET}:true_class_probability", f"{MET}:classification_score") \
+                and s.returns[0].term[1][1] != f"{MET}:{fname}" and s.returns[0].term[2] == (yt, ys) and not s.returns[0].term[3]:
+            ctx.ok(r3, site, f"delegates to {s.returns[0].term[1][1].split(':')[1]}(y_true, y_score)")
+            ctx.ok(r7, site, "clamped by the sibling it delegates to")
+            return
+        nt = none_ret[0].term if len(none_ret) == 1 else None
+        clamped = False
+        if len(none_ret) == 2:
+            # `x if x > 0 else 0` spelled out: x under (0 < x), 0 under (x <= 0)
+            pos_ = [r for r in none_ret if canon(r.term) == canon(w_none)]
+            zer_ = [r for r in none_ret if r.term in (("const", 0), ("const", 0.0))]
+            if len(pos_) == 1 and len(zer_) == 1:
+                cp_ = [c for c in conjuncts(pos_[0].live) if c[0] == "cmp" and c[1] in ("lt", "le") and c[2] in (("const", 0), ("const", 0.0)) and canon(c[3]) == canon(w_none)]
+                if cp_:
+                    nt, clamped = pos_[0].term, True
+                    none_ret = pos_
+        if nt is not None and nt[0] == "call" and nt[1] in (("builtin", "max"), ("ext", "numpy.maximum")) and len(nt[2]) == 2 and not nt[3]:
+            def is_zero(a):
+                if a in (("const", 0), ("const", 0.0)):
+                    return True
+                if a[0] == "attr" and a[1][0] == "global" and a[1][2] == "class" and ":" in a[1][1]:
+                    ci_ = ctx.index.class_by_qual(a[1][1])
+                    d_ = [st_ for st_ in (ci_.node.body if ci_ else []) if isinstance(st_, ast.Assign) and any(isinstance(t_, ast.Name) and t_.id == a[2] for t_ in st_.targets)]
+                    return len(d_) == 1 and isinstance(d_[0].value, ast.Constant) and d_[0].value.value in (0, 0.0) and not isinstance(d_[0].value.value, bool)
+                return False
+            z_ = [a for a in nt[2] if is_zero(a)]
+            o_ = [a for a in nt[2] if a not in z_]
+            if len(z_) == 1 and len(o_) == 1:
+                nt, clamped = o_[0], True
+        if nt is not None and nt[0] == "call" and nt[1] == ("builtin", "float") and len(nt[2]) == 1:
+            nt = nt[2][0]
+        if nt is not None and len(some_ret) == 1 and canon(nt) == canon(w_none) and some_ret[0].term == ("sub", ys, yt):
+            ctx.ok(r3, site, "y_score[y_true], or 1 - sum(y_score) for an unlabelled item")
+            # R09.7: the scores come from prediction_encoding as float32; the float32 sum of scores that add up to 1 (0.3 + 0.4 +
+            # 0.1 + 0.2) is 1.0000001, so 1 - sum is -1.19e-07 and the `score >= 0` constraint of Match / ClipEvaluation /
+            # Evaluation rejects the whole evaluation: the 'none' probability must be clamped at 0
+            if clamped:
+                ctx.ok(r7, site, "the 'none' probability 1 - sum(scores) is clamped at 0")
+            else:
+                ctx.bad(r7, file, fname, "return 1 - y_score.sum() (unclamped)",
+                        f"metrics.{fname} returns `1 - y_score.sum()` for an unlabelled item without clamping it at 0: the scores are "
+                        f"float32 (prediction_encoding), and for scores that add up to exactly 1 their float32 sum is 1.0000001, so the "
+                        f"result is -1.19e-07 -- the ge=0 constraint on score then rejects the match / clip evaluation and the whole "
+                        f"task call fails with a ValidationError", none_ret[0].lineno,
+                        witness={"scores": [0.3, 0.4, 0.1, 0.2], "float32_sum": 1.0000001192092896, "returned": -1.1920928955078125e-07})
+        else:
+            ctx.bad(r3, file, fname, "return y_score[y_true] / 1 - y_score.sum()",
+                    f"metrics.{fname} is not `y_score[y_true]` (and `1 - y_score.sum()` for None): "
+                    f"{[(show(r.live)[:30], show(r.term)[:40]) for r in s.returns]}", s.node.lineno)
+
+    def map_ranks(self, s, site, file, yt, ysc):
+        ctx = self.ctx
+        YT, YS = ("param", "y_true"), ("param", "y_score")
+
+        def unwrap(t):
+            while True:
+                if t[0] == "call" and t[1] in (("ext", "numpy.array"), ("ext", "numpy.asarray")) and t[2]:
+                    t = t[2][0]
+                elif t[0] == "call" and t[1][0] == "attr" and t[1][2] in ("astype", "copy"):
+                    t = t[1][1]
+                else:
+                    return t
+
+        def resolve(t, R):
+            """choose the branches of every conditional whose test is a comparison of .ndim, given the ranks R of the parameters"""
+            if not isinstance(t, tuple) or not t:
+                return t
+            if t[0] == "ite":
+                c = cond(t[1], R)
+                if c is True:
+                    return resolve(t[2], R)
+                if c is False:
+                    return resolve(t[3], R)
+            return tuple(resolve(x, R) if isinstance(x, tuple) else x for x in t)
+
+        def rank(t, R):
+            t = unwrap(resolve(t, R))
+            if t in R:
+                return R[t]
+            if t[0] == "sub":
+                if t[1][0] == "call" and t[1][1] == ("ext", "numpy.eye"):
+                    r = rank(t[2], R)
+                    return None if r is None else r + 1
+                if t[2][0] in ("invert", "not"):
+                    m = t[2][1]
+                    if m[0] == "call" and m[1] == ("ext", "numpy.isnan") and m[2]:
+                        m = m[2][0]
+                    rm, rb = rank(m, R), rank(t[1], R)
+                    if rm is None or rb is None:
+                        return None
+                    return rb if rm == 1 else (1 if rm == rb else None)  # a row mask keeps the rank; a full-shape mask flattens
+            return None
+
+        def cond(c, R):
+            if c[0] == "and":
+                vs = [cond(x, R) for x in c[1]]
+                return False if False in vs else (True if all(v is True for v in vs) else None)
+            if c[0] == "or":
+                vs = [cond(x, R) for x in c[1]]
+                return True if True in vs else (False if all(v is False for v in vs) else None)
+            if c[0] == "not":
+                v = cond(c[1], R)
+                return None if v is None else not v
+            if c[0] == "cmp" and c[1] in ("eq", "ne") and c[3][0] == "const" and c[2][0] == "attr" and c[2][2] == "ndim":
+                r = rank(c[2][1], R)
+                if r is None:
+                    return None
+                return (r == c[3][1]) == (c[1] == "eq")
+            return None
+
+        problems = []
+        # the multilabel task: an indicator matrix and a score matrix go to scikit-learn as they are
+        R2 = {YT: 2, YS: 2}
+        t2, s2 = resolve(yt, R2), resolve(ysc, R2)
+        if unwrap(t2) != YT:
+            problems.append(f"a two-dimensional indicator matrix y_true is passed on as {show(t2)[:70]}")
+        if s2 != YS:
+            problems.append(f"the scores of a two-dimensional problem are passed on as {show(s2)[:70]}")
+        # class indices + score matrix: one-hot rows over the columns of the score matrix
+        R1 = {YT: 1, YS: 2}
+        t1, s1 = resolve(yt, R1), resolve(ysc, R1)
+        ok1 = t1[0] == "sub" and t1[1][0] == "call" and t1[1][1] == ("ext", "numpy.eye") and len(t1[1][2]) == 1
+        if ok1:
+            n = t1[1][2][0]
+            okn = n[0] == "sub" and n[2] in (("const", 1), ("const", -1)) and n[1][0] == "attr" and n[1][2] == "shape" and unwrap(n[1][1]) in (YS, s1)
+            if not okn:
+                problems.append(f"class indices are expanded to one-hot rows of width {show(n)[:50]} instead of the number of score columns (y_score.shape[1])")
+        elif any(x[0] == "ite" for x in walk(t1)):
+            ctx.undec("R09.3", site, f"cannot decide the branch taken for one-dimensional class indices: {show(t1)[:80]}")
+        else:
+            problems.append(f"one-dimensional class indices are passed on as {show(t1)[:60]} instead of one-hot rows (np.eye(num_classes)[y_true])")
+        if problems:
+            ctx.bad("R09.3", file, "mean_average_precision", "rank handling of y_true / y_score", "metrics.mean_average_precision: " + "; ".join(problems), s.node.lineno)
+        else:
+            ctx.ok("R09.3", site, "indicator matrices pass unchanged; class indices become one-hot rows over the score columns (two rank scenarios)")
 
     # ------------------------------------------------------------------ R09.6
     def lockstep(self):
@@ -479,6 +640,32 @@ class C09:
                                 e.lineno, witness={"input": "a ClipAnnotation with one sound event, evaluated by " + tm, "observed": "ValidationError"})
                     else:
                         ctx.ok("R09.8", site, "ClipEvaluation built with matches (or from objects assembled for it)")
+
+    # ------------------------------------------------------------------ R09.9 - R09.11
+    def flow(self):
+        """"over the encoded truths and predicted scores of the evaluated items" / "scores aggregate as means": the provenance typing
+        of rules/evalflow.py, started at each task's entry point."""
+        from . import evalflow as ef
+        ctx = self.ctx
+        for tm in TASK_MODS:
+            modname = f"{TASKS}.{tm}"
+            fl = ef.Flow(ctx, modname, tm).run()
+            se_level = tm.startswith("sound_event")
+            ef.check_metric_calls(ctx, "R09.9", fl, tm)
+            ef.check_objects(ctx, "R09.10", fl, tm, se_level)
+            for o in fl.obs:
+                if o.kind not in ("Evaluation", "ClipEvaluation"):
+                    continue
+                fr, t = o.terms[0], o.terms[1]
+                kw = callkw(t)
+                if o.kind == "Evaluation":
+                    ef.check_mean(ctx, "R09.11", fr.s, kw.get("score", NONE), kw.get("clip_evaluations"), "overall score", o.func)
+                elif se_level:
+                    ef.check_mean(ctx, "R09.11", fr.s, kw.get("score", NONE), kw.get("matches"), "clip score", o.func)
+            if fl.result != ("obj", "Evaluation"):
+                ctx.undec("R09.9", f"{ctx.index.module(modname).relpath} {tm}", f"the task does not return an Evaluation built in the package ({ef.rshow(fl.result)})")
+        mods = sorted(mn for mn in ctx.index.modules if mn.startswith(TASKS + "."))
+        ef.check_lookups(ctx, "R09.10", mods)
 
     def task_structure(self):
         ctx = self.ctx
@@ -621,6 +808,9 @@ def run(ctx: Ctx):
     ctx.rule("R09.5", "tasks build metric lists from their own tables, at the right level, under their own name", 18)
     ctx.rule("R09.6", "per-item results and truth / score rows are accumulated in lock-step", 6)
     ctx.rule("R09.8", "per-clip results are constructible: ClipEvaluation gets a match for every sound event it is handed", 4)
+    ctx.rule("R09.9", "every metric / scoring function is called as f(truths, score rows) of the evaluated items (provenance typing)", 14)
+    ctx.rule("R09.10", "result objects get what their fields name; no reported list stays empty; table lookups under their membership test", 14)
+    ctx.rule("R09.11", "task and clip scores are guarded means of the scores of exactly the objects reported next to them", 6)
     ctx.rule("R09.7", "the 'none' probability of an unlabelled item cannot go below 0 (float32 score sums)", 2)
     c = C09(ctx)
     c.tables()
@@ -630,6 +820,7 @@ def run(ctx: Ctx):
     c.task_structure()
     c.clip_evaluations_constructible()
     c.lockstep()
+    c.flow()
     # "survives an AOEF save/load with every metric intact": the field-carry / elision rules of C01 on the three
     # metric-carrying adapters (anchored files io/aoef/evaluation.py, clip_evaluation.py, match.py)
     from .c01 import C01
